@@ -77,6 +77,36 @@ def r2_2_message_type(ctx, prog):
             a = (r[1 + names.index("method")], r[1 + names.index("class")]) if {"method", "class"} <= set(names) and len(r) == len(names) + 1 else ("?", "?")
         ctx.ob("R2.2", "decode:argument-order", "MessageMethod" in repr(a[0]) and "MessageClass" in repr(a[1]), "MessageType{method, class} = (%s)" % show(a)[:160], info["where"])
         break
+    if not done:
+        # the class is not built by MessageClass::try_from(bits) but selected by tests on the type word (`match (c1, c0)`):
+        # on every path the tests must pin bits 8 and 4 (and nothing else), and the class returned must be 2*bit8 + bit4
+        order = ["Request", "Indication", "SuccessResponse", "ErrorResponse"]
+        seen_cls = {}
+        okall = bool(paths)
+        for pa in paths:
+            r = C.expr_of(pa, pa.ret)
+            mc = pa.calls_to(r"MessageMethod as std::convert::TryFrom<u16>>::try_from$")
+            pins = {}
+            for op, a_, b_, v_ in pa.guards():
+                if op in ("Ne", "Eq") and b_ == 0:
+                    bits = B.evaluate(a_, {leaf: 16})
+                    nz = [x for x in bits[:16] if x != 0]
+                    if len(nz) == 1 and isinstance(nz[0], tuple) and nz[0][0] == "in" and nz[0][1] == leaf:
+                        pins[nz[0][2]] = (v_ == 1) if op == "Ne" else (v_ == 0)
+                        continue
+                okall = False
+            cls = next((c_ for c_ in order if ("MessageClass::%s" % c_) in repr(r)), None)
+            if set(pins) != {8, 4} or cls is None or not mc:
+                okall = False
+                continue
+            want_cls = order[2 * int(pins[8]) + int(pins[4])]
+            seen_cls[want_cls] = cls
+            mbits = B.evaluate(C.expr_of(pa, mc[0][2][0]), {leaf: 16})
+            expm = [("in", leaf, i) for i in range(4)] + [("in", leaf, i) for i in range(5, 8)] + [("in", leaf, i) for i in range(9, 14)] + [0] * 4
+            okall = okall and mbits[:16] == expm
+        okall = okall and seen_cls == {c_: c_ for c_ in order}
+        ctx.ob("R2.2", "decode:class-by-tests", okall, "class selected by bits (8, 4) of the type word: %s; method bits gathered from 0-3, 5-7, 9-13" % seen_cls, info["where"])
+        done = 1 if okall else 0
     ctx.floor("R2.2", "decode paths", done, 1)
     # MessageClass::try_from maps 0..3 in declaration order; MessageMethod::try_from rejects bits 12-15
     paths, info = C.explore_fn(prog, "<stun_rs::message::MessageClass as std::convert::TryFrom<u8>>::try_from", "x", [])
